@@ -220,5 +220,53 @@ func runC11(ctx *Ctx) {
 				Observed: "accepted", Expected: "rejected", Signature: "fault-accepted:second Request"})
 		}
 	}
+	// a second Path directive in one context, whatever stands between the two (nothing, childless siblings, siblings with
+	// children of their own), under a method, under a URL, and brought in by a PASTE; with a control holding one Path
+	{
+		between := []string{"", "  200 any\n", "  200\n    Body any\n", "  Request\n    Headers\n    {\"h\": 1}\n    Body any\n", "  Query\n  {\"q\": 1}\n",
+			"  Description\n  (\n    text\n  )\n", "  200\n    Body any\n  404\n    Headers\n    {\"h\": 2}\n    Body any\n"}
+		for _, host := range []string{"method", "url"} {
+			for _, btw := range between {
+				for _, second := range []bool{true, false} {
+					var doc string
+					p2 := ""
+					if second {
+						p2 = "  Path\n  {\"toy\": 2}\n"
+					}
+					if host == "method" {
+						doc = "JSIGHT 0.3\nGET /cats/{id}/toys/{toy}\n  Path\n  {\"id\": 1}\n" + btw + p2 + "  200 any\n"
+					} else {
+						// the method between the two Path directives is closed by a parenthesis: what follows belongs to the URL
+						inner := ""
+						for _, l := range strings.Split(strings.TrimRight(btw, "\n"), "\n") {
+							if l != "" {
+								inner += "  " + l + "\n"
+							}
+						}
+						if inner == "" || strings.Contains(btw, "Query") || strings.Contains(btw, "Description") || strings.Contains(btw, "Request") {
+							inner += "    200 any\n"
+						}
+						doc = "JSIGHT 0.3\nURL /cats/{id}/toys/{toy}\n(\n  Path\n  {\"id\": 1}\n  GET\n  (\n" + inner + "  )\n" + p2 + "  POST\n    200 any\n)\n"
+					}
+					res := RunProject(SingleFile([]byte(doc)), false)
+					ctx.Cov.Count([]byte(doc), true)
+					if res.Panic != "" {
+						continue
+					}
+					in := projectInput(SingleFile([]byte(doc)))
+					in["op"] = "fault"
+					if second {
+						ctx.Cov.Hit("fault: second Path")
+						if res.Err == nil {
+							ctx.Violate(Violation{Kind: "wrong-output", Site: "static checks", What: "a second Path directive in one " + host + " context is accepted", Input: in,
+								Observed: "accepted", Expected: "rejected", Signature: "fault-accepted:second Path"})
+						}
+					} else if res.Err != nil {
+						ctx.Violate(Violation{Kind: "wrong-output", Site: "static checks", What: "the control document with ONE Path directive is rejected: " + res.Verdict(), Input: in, Signature: "second-path-control-rejected"})
+					}
+				}
+			}
+		}
+	}
 	ctx.Cov.Component("single injected fault => rejection located at the offending directive (specification on the implementation)", ctx.Cov.Evaluations, len(ctx.Violations), "")
 }
